@@ -340,6 +340,12 @@ class Interp:
         if t.get("indirect"):
             raise Undecidable("indirect call")
         c = t["callee"]
+        if c.endswith("hint::black_box") and len(t["args"]) == 1:
+            return self.operand(t["args"][0])
+        if t["sp"].get("exp") and t["sp"].get("mac") in ("eprintln", "println", "eprint", "print", "format", "debug", "trace", "log") or \
+                re.search(r"std::io::(stdio::)?_e?print$|core::fmt::rt::Argument::<'_>::new_\w+$|core::fmt::Arguments::<'_>::new\w*$|fmt::Arguments::<'a>::new\w*$", c):
+            # diagnostics: the printed value is irrelevant to the table; its result is an opaque token
+            return ("opaque", c)
         args = [self.operand(a) for a in t["args"]]
         f = self.F.funcs.get(c)
         if f is not None and f.crate in ("ragc_core", "ragc_common", "ragc"):
